@@ -105,7 +105,7 @@ def run_equiv_check(pid, tier, t0, items, level, rule, assumptions, extra_cov=No
             complete += 1
         for v in sorted(bad):
             clause = v.split(":")[-1] if v.startswith(("MON_", "FAULT_")) else v
-            new = rep.violation([it["name"], it["name"] + "@" + it["tag"]], clause,
+            new = rep.violation([it["name"], it["name"] + "@" + it["tag"]] + it.get("keys", []), clause,
                                 {"property": pid, "case": it["name"], "variant": it["tag"], "verdict": v,
                                  "source": it.get("src"), "a_text": it.get("a_text"), "b_text": it.get("b_text"),
                                  "tlc_case": it["case"]},
@@ -258,6 +258,11 @@ def check_binding_h1(code, post):
     return a == b
 
 
+RA_WITNESS = (corpus.HEADER + "def fz(xn):\n    for ia in range(2):\n        for ib in range(2):\n            va = xn + 3\n            d1.Setting = va\n"
+              "        va = va + 5\n        for ic in range(2):\n            vb = va + 7\n    return 0\n"
+              "while True:\n    d5.Setting = fz(d0.Setting)\n    d5.Setting = fz(1)\n    yield_()\n")
+
+
 def check_c04(tier, t0):
     import proggen
     progs = pick(all_progs(), tier, 40)
@@ -266,11 +271,26 @@ def check_c04(tier, t0):
     vecs = [cw.REF, cw.opts(inline_functions=True), cw.opts(use_push_pop_functions=True, tail_call_optimization=True)]
     if tier == "thorough":
         vecs += [cw.opts(inline_functions=True, use_push_pop_functions=True), cw.opts(tail_call_optimization=True)]
+    # function bodies from RegAlloc.tla (the allocator as implemented next to liveness as required): skeletons drawn by
+    # TLC -simulate (thorough: also every skeleton of a small configuration); the model predicts where the implemented
+    # line-interval lifetimes under-approximate liveness, the product below decides what the real allocator does
+    import regalloc
+    sks, _rr = regalloc.skeletons("C04_ra", seed(), 7, False, n=(4000 if tier == "thorough" else 250))
+    if tier == "thorough":
+        sks += regalloc.skeletons("C04_rax", seed(), 4, True)[0]
+    ra_meta = {}
+    for k, sk in enumerate(sks):
+        src, dl = regalloc.render(sk)
+        nm = "ra_%04d" % k
+        ra_meta[nm] = (sk, dl)
+        progs.append((nm, src, "regalloc"))
+    progs.append(("ra_witness_sibling_loops", RA_WITNESS, "regalloc"))
     mat = compile_matrix(progs, vecs)
     rep = Reporter("C04")
     items = []
     range_viol = 0
     rejected = 0
+    ra_agree = ra_total = 0
     for n, s, fam in progs:
         for v in vecs:
             tag = cw.vec_name(v)
@@ -299,9 +319,20 @@ def check_c04(tier, t0):
             pb = ic10load.load("\n".join(e["text"] for e in post["stream"]))
             if len(la.vregs) > 60:
                 continue
-            c = equiv.make_case(pa, pb)
+            c = equiv.make_case(pa, pb, maxn=(10 if fam == "regalloc" else 4))
             c["nrega"] = 17 + len(la.vregs)
-            items.append({"name": n, "tag": tag, "case": c, "src": s, "a_text": "\n".join(e["text"] for e in pre["stream"]),
+            extra_keys = []
+            if n in ra_meta and tag == "-":
+                sk, dl = ra_meta[n]
+                part = regalloc.real_partition(r["events"], dl)
+                pred = sk["colours"]
+                if part is not None:
+                    ra_total += 1
+                    syms = [x for x in pred if x in part]
+                    ra_agree += len(syms) == len(pred) and all((pred[a] == pred[b]) == (part[a] == part[b]) for a in syms for b in syms)
+            if n in ra_meta and ra_meta[n][0]["clobbers"]:
+                extra_keys.append("ra:predicted_clobber")
+            items.append({"name": n, "tag": tag, "keys": extra_keys, "case": c, "src": s, "a_text": "\n".join(e["text"] for e in pre["stream"]),
                           "b_text": code, "sample": {"case": n, "variant": tag, "virtual": [e["text"] for e in pre["stream"]][:12],
                                                      "allocated": [e["text"] for e in post["stream"]][:12]}})
     # programs that need more than 16 registers must be rejected, not emitted
@@ -325,7 +356,9 @@ def check_c04(tier, t0):
             "register per virtual name) and after allocation; both are run as IC10 machines over all inputs and must "
             "produce the same effects (a live value overwritten by another changes an effect for some input); plus: "
             "emitted registers within r0..r15, programs with 17..24 simultaneously live values rejected")
-    rc_extra = {"programs_rejected_out_of_registers": rejected}
+    rc_extra = {"programs_rejected_out_of_registers": rejected, "regalloc_skeletons": len(sks),
+                "regalloc_skeletons_with_predicted_clobber": sum(1 for sk in sks if sk["clobbers"]),
+                "allocator_decisions_explained_by_RegAlloc_tla": "%d of %d" % (ra_agree, ra_total)}
     rc = run_equiv_check("C04", tier, t0, items, "model_checking", rule,
                          ASSUME_IC10 + ["the virtual-register stream exported by hook H1 is the allocator's input (checked: the post stream equals the emitted text)"],
                          extra_cov=rc_extra)
